@@ -293,6 +293,25 @@ class AtLeast(puan.Proposition):
             )
         )
 
+    def _occurrences(self) -> typing.List[puan.Proposition]:
+
+        """
+            Returns every proposition object of this model (this proposition, all its sub propositions and their variables),
+            once per object. Unlike :meth:`flatten` no two objects are merged because they happen to be equal or to have equal hashes.
+
+            Returns
+            -------
+                out : List[Proposition]
+        """
+        seen, stack, result = set(), [self], []
+        while stack:
+            current = stack.pop()
+            if not id(current) in seen:
+                seen.add(id(current))
+                result.append(current)
+                stack.extend(getattr(current, "propositions", []))
+        return result
+
     def _dependencies(self) -> typing.List[typing.Tuple[puan.variable, typing.List[puan.variable]]]:
 
         """
@@ -395,75 +414,39 @@ class AtLeast(puan.Proposition):
 
                     # Checks that every node's variable with some id also has
                     # the same bounds. Otherwise, there is an ambivalent variable definition.
-                    maz.compose(
-                        operator.not_,
-                        functools.partial(
-                            maz.invoke,
-                            operator.eq,   
-                        ),
-                        maz.fnmap(
-                            maz.compose(
-                                len,
-                                set,
-                                functools.partial(map, hash),
-                                itertools.chain.from_iterable,
-                                maz.fnmap(
-                                    functools.partial(
-                                        filter,
-                                        lambda x: issubclass(
-                                            x.__class__, 
-                                            puan.variable
-                                        ),
-                                    ),
-                                    maz.compose(
-                                        functools.partial(
-                                            map,
-                                            operator.attrgetter("variable"),
-                                        ),
-                                        functools.partial(
-                                            filter,
-                                            lambda x: not issubclass(
-                                                x.__class__, 
-                                                puan.variable
-                                            ),
-                                        )
-                                    )
-                                ),
-                                operator.methodcaller("flatten")
-                            ),
-                            maz.compose(
-                                len,
-                                set,
-                                functools.partial(
-                                    map, 
-                                    operator.attrgetter("id")
-                                ),
-                                operator.methodcaller("flatten")
-                            ),
+                    # (compares ids and bounds of every occurrence, not hashes)
+                    lambda model: any(
+                        map(
+                            lambda bounds: len(bounds) > 1,
+                            functools.reduce(
+                                lambda acc, x: {**acc, x.id: acc.get(x.id, set()) | {x.bounds.as_tuple()}},
+                                model._occurrences(),
+                                {},
+                            ).values(),
                         )
                     ),
 
                     # Checks only compound propositions if there exist
                     # two or more that share id, bounds but not rest of
                     # a compound proposition properties
-                    maz.compose(
-                        operator.not_,
-                        functools.partial(
-                            maz.invoke,
-                            operator.eq,   
-                        ),
-                        maz.fnmap(
-                            maz.compose(len, set, functools.partial(map, hash)),
-                            maz.compose(len, set, functools.partial(map, operator.attrgetter("id")))
-                        ),
-                        list,
-                        functools.partial(
-                            filter,
-                            lambda x: not issubclass(x.__class__, puan.variable),
-                        ),
-                        operator.methodcaller("flatten")
+                    lambda model: any(
+                        map(
+                            lambda definitions: len(definitions) > 1,
+                            functools.reduce(
+                                lambda acc, x: {
+                                    **acc, 
+                                    x.id: acc.get(x.id, set()) | {
+                                        (int(x.sign), x.value, tuple(map(operator.attrgetter("id"), x.propositions)))
+                                    }
+                                },
+                                filter(
+                                    lambda x: not issubclass(x.__class__, puan.variable),
+                                    model._occurrences(),
+                                ),
+                                {},
+                            ).values(),
+                        )
                     ),
-
 
                     # Checks if any edge exists more than once
                     # E.g. A has two edges to x, meaning two x's are siblings
